@@ -173,7 +173,7 @@ theorem parseArgs_bulks (name : Bytes) (args : List Bytes) (h : name ≠ []) :
 
 theorem decodeCmd_enc (f : Nat) (c : List Bytes) (r : Bytes) (h : WF c) (off : Nat) :
     decodeCmd (f + 2) (encodeCmd c ++ r) off = .ok (cmdOf c, off + (encodeCmd c).length, r) := by
-  obtain ⟨hname, hn, hall⟩ := h
+  obtain ⟨hname, hn, hall, _⟩ := h
   match c, hname with
   | name :: args, hname =>
     unfold decodeCmd
@@ -228,9 +228,9 @@ theorem flatMap_encodeCmd_length_ge (s : List (List Bytes)) :
 theorem decodeAll_stream (start : Nat) (s : List (List Bytes)) (hwf : ∀ c ∈ s, WF c) :
     decodeAll start (s.flatMap encodeCmd) = (expected start s, .eof) := by
   match s, hwf with
-  | [], _ => simp [decodeAll, decodeAllAux, decodeCmd, decodeResp, decodeType, expected, boundaries]
+  | [], _ => simp [decodeAll, decodeAllFrom, decodeAllAux, decodeCmd, decodeResp, decodeType, expected, boundaries]
   | c :: cs, hwf =>
-    unfold decodeAll
+    unfold decodeAll decodeAllFrom
     have hlen := flatMap_encodeCmd_length_ge (c :: cs)
     have h := decodeAllAux_stream (((c :: cs).flatMap encodeCmd).length + 1) start (c :: cs) []
       (((c :: cs).flatMap encodeCmd).length + 1) 0
@@ -311,7 +311,7 @@ theorem decodeAll_stream_prefix (start : Nat) (s : List (List Bytes)) (tail : By
   match s, hwf with
   | [], _ => simp [expected, boundaries]
   | c :: cs, hwf =>
-    unfold decodeAll
+    unfold decodeAll decodeAllFrom
     have hlen := flatMap_encodeCmd_length_ge (c :: cs)
     have hL : (c :: cs).length ≤ ((c :: cs).flatMap encodeCmd ++ tail).length := by
       rw [List.length_append]; omega
@@ -545,5 +545,281 @@ theorem decodeResp_consumed (fuel depth : Nat) (inp : Bytes) (off : Nat)
     (hty : typed inp) (h : decodeResp fuel depth inp off = .ok (v, off', rest)) :
     ∃ pre, inp = pre ++ rest ∧ off' = off + pre.length :=
   decodeResp_adv fuel depth inp off v off' rest (Or.inl hty) h
+
+/-! ### truncation: a cut anywhere inside a command is reported as (unexpected) EOF -/
+
+def IsEof (e : DecErr) : Prop := e = .eof ∨ e = .ueof
+
+theorem readLine_none_of_noNl (p : Bytes) (h : ∀ b ∈ p, b ≠ 10) : readLine p = none := by
+  unfold readLine
+  rw [span_eq]
+  have : ∀ (q : Bytes), (∀ b ∈ q, b ≠ 10) → q.dropWhile (fun x : UInt8 => decide (x ≠ 10)) = [] := by
+    intro q hq
+    induction q with
+    | nil => rfl
+    | cons x xs ih =>
+      rw [List.dropWhile_cons]
+      have hx : decide (x ≠ 10) = true := by simp [hq x (by simp)]
+      rw [hx]; exact ih (fun b hb => hq b (by simp [hb]))
+  rw [this p h]
+
+theorem line_prefix_noNl (n : Nat) (p s : Bytes) (h : natToDec n ++ crlf = p ++ s) (hs : s ≠ []) :
+    ∀ b ∈ p, b ≠ 10 := by
+  have hd : ∀ b ∈ natToDec n ++ [13], b ≠ 10 := by
+    intro b hb
+    rcases List.mem_append.mp hb with hb | hb
+    · exact (digit_ne (natToDec_all_digit n b hb)).1
+    · simp at hb; subst hb; decide
+  have e : (natToDec n ++ [13]) ++ [10] = p ++ s := by rw [← h]; simp [crlf]
+  rcases List.append_eq_append_iff.mp e with ⟨a', hp, hq⟩ | ⟨c', hp, _⟩
+  · have : a' = [] := by
+      cases a' with
+      | nil => rfl
+      | cons x xs =>
+        have := congrArg List.length hq
+        cases s with
+        | nil => exact absurd rfl hs
+        | cons y ys => simp at this <;> omega
+    subst this; rw [hp]; simpa using hd
+  · intro b hb; exact hd b (by rw [hp]; exact List.mem_append_left _ hb)
+
+theorem decodeInt_trunc (n : Nat) (p s : Bytes) (h : natToDec n ++ crlf = p ++ s) (hs : s ≠ []) (off : Nat) :
+    decodeInt p off = .error .eof := by
+  unfold decodeInt decodeText
+  rw [readLine_none_of_noNl p (line_prefix_noNl n p s h hs)]
+
+theorem decodeBulk_trunc (a p s : Bytes) (hl : a.length < 2^63)
+    (h : natToDec a.length ++ crlf ++ (a ++ crlf) = p ++ s) (hs : s ≠ []) (off : Nat) :
+    ∃ e, decodeBulk p off = .error e ∧ IsEof e := by
+  -- either the cut is inside the length line, or at/after its end
+  have key : (∃ a', p = natToDec a.length ++ crlf ++ a' ∧ a ++ crlf = a' ++ s) ∨
+             (∃ c', c' ≠ [] ∧ natToDec a.length ++ crlf = p ++ c') := by
+    rcases List.append_eq_append_iff.mp h with ⟨a', hp, hq⟩ | ⟨c', hp, hq⟩
+    · exact Or.inl ⟨a', hp, hq⟩
+    · cases c' with
+      | nil => exact Or.inl ⟨[], by simpa using hp.symm, by simpa using hq.symm⟩
+      | cons x xs => exact Or.inr ⟨x :: xs, by simp, hp⟩
+  rcases key with ⟨a', hp, hq⟩ | ⟨c', hc, hp⟩
+  · subst hp
+    unfold decodeBulk
+    rw [decodeInt_dec _ hl]
+    have hn1 : ¬ ((a.length : Int) < -1) := by omega
+    have hn2 : ¬ ((a.length : Int) = -1) := by omega
+    simp only [hn1, hn2, if_false, Int.toNat_natCast]
+    have hlen : a'.length < a.length + 2 := by
+      have := congrArg List.length hq
+      cases s with
+      | nil => exact absurd rfl hs
+      | cons y ys => simp [crlf] at this <;> omega
+    have ht : (a'.take (a.length + 2)).length < a.length + 2 := by
+      rw [List.length_take]; omega
+    simp only [ht, if_true]
+    split
+    · exact ⟨_, rfl, Or.inl rfl⟩
+    · exact ⟨_, rfl, Or.inr rfl⟩
+  · unfold decodeBulk
+    rw [decodeInt_trunc _ p c' hp hc]
+    exact ⟨_, rfl, Or.inl rfl⟩
+
+theorem decodeResp_bulk_trunc (f d : Nat) (a p s : Bytes) (hl : a.length < 2^63)
+    (h : encodeBulk a = p ++ s) (hs : s ≠ []) (off : Nat) :
+    ∃ e, decodeResp (f + 1) d p off = .error e ∧ IsEof e := by
+  cases p with
+  | nil => exact ⟨.eof, by simp [decodeResp, decodeType], Or.inl rfl⟩
+  | cons x p' =>
+    simp only [encodeBulk, List.cons_append, List.cons.injEq] at h
+    obtain ⟨rfl, h⟩ := h
+    obtain ⟨e, he, hE⟩ := decodeBulk_trunc a p' s hl (by rw [← h]) hs (off + 1)
+    refine ⟨e, ?_, hE⟩
+    rw [decodeResp, decodeType]
+    simp only [show ((36 : UInt8) = 10) = False by decide, if_false,
+      show ((36 : UInt8) = 43) = False by decide, show ((36 : UInt8) = 45) = False by decide,
+      show ((36 : UInt8) = 58) = False by decide, if_true]
+    rw [he]
+
+theorem decodeElems_trunc (f d : Nat) (as : List Bytes) (hall : ∀ a ∈ as, a.length < 2^63)
+    (p s : Bytes) (h : as.flatMap encodeBulk = p ++ s) (hs : s ≠ []) (off : Nat) :
+    ∃ e, decodeElems (decodeResp (f + 1) d) as.length p off = .error e ∧ IsEof e := by
+  induction as generalizing p off with
+  | nil =>
+    simp only [List.flatMap_nil] at h
+    have : s = [] := by
+      have := congrArg List.length h; simp at this; exact List.eq_nil_of_length_eq_zero (by omega)
+    exact absurd this hs
+  | cons a as ih =>
+    simp only [List.flatMap_cons] at h
+    have key : (∃ a', p = encodeBulk a ++ a' ∧ as.flatMap encodeBulk = a' ++ s) ∨
+               (∃ c', c' ≠ [] ∧ encodeBulk a = p ++ c') := by
+      rcases List.append_eq_append_iff.mp h with ⟨a', hp, hq⟩ | ⟨c', hp, hq⟩
+      · exact Or.inl ⟨a', hp, hq⟩
+      · cases c' with
+        | nil => exact Or.inl ⟨[], by simpa using hp.symm, by simpa using hq.symm⟩
+        | cons x xs => exact Or.inr ⟨x :: xs, by simp, hp⟩
+    rcases key with ⟨a', hp, hq⟩ | ⟨c', hc, hp⟩
+    · subst hp
+      obtain ⟨e, he, hE⟩ := ih (fun x hx => hall x (by simp [hx])) a' hq (off + (encodeBulk a).length)
+      refine ⟨e, ?_, hE⟩
+      simp only [List.length_cons, decodeElems]
+      rw [decodeResp_bulk f d a a' (hall a (by simp))]
+      simp only
+      rw [he]
+    · obtain ⟨e, he, hE⟩ := decodeResp_bulk_trunc f d a p c' (hall a (by simp)) hp hc off
+      refine ⟨e, ?_, hE⟩
+      simp only [List.length_cons, decodeElems]
+      rw [he]
+
+theorem decodeResp_cmd_trunc (f : Nat) (as : List Bytes) (hn : as.length < 2^63)
+    (hall : ∀ a ∈ as, a.length < 2^63) (p s : Bytes) (h : encodeCmd as = p ++ s) (hs : s ≠ []) (off : Nat) :
+    ∃ e, decodeResp (f + 2) 0 p off = .error e ∧ IsEof e := by
+  cases p with
+  | nil => exact ⟨.eof, by simp [decodeResp, decodeType], Or.inl rfl⟩
+  | cons x p' =>
+    simp only [encodeCmd, List.cons_append, List.cons.injEq] at h
+    obtain ⟨rfl, h⟩ := h
+    have hty : ∀ (X : Dec Resp), (decodeResp (f + 2) 0 (42 :: p') off = X) ↔
+        ((match decodeInt p' (off + 1) with
+          | .error e => .error e
+          | .ok (n, o, r) =>
+            if n < -1 then .error .bad
+            else if n = -1 then .ok (.arr none, o, r)
+            else
+              match decodeElems (decodeResp (f + 1) (0 + 1)) n.toNat r o with
+              | .error e => .error e
+              | .ok (vs, o', r') => .ok (.arr (some vs), o', r')) = X) := by
+      intro X
+      rw [decodeResp, decodeType]
+      simp only [show ((42 : UInt8) = 10) = False by decide, if_false,
+        show ((42 : UInt8) = 43) = False by decide, show ((42 : UInt8) = 45) = False by decide,
+        show ((42 : UInt8) = 58) = False by decide, show ((42 : UInt8) = 36) = False by decide, if_true]
+      exact Iff.rfl
+    have key : (∃ a', p' = natToDec as.length ++ crlf ++ a' ∧ as.flatMap encodeBulk = a' ++ s) ∨
+               (∃ c', c' ≠ [] ∧ natToDec as.length ++ crlf = p' ++ c') := by
+      rcases List.append_eq_append_iff.mp h with ⟨a', hp, hq⟩ | ⟨c', hp, hq⟩
+      · exact Or.inl ⟨a', hp, hq⟩
+      · cases c' with
+        | nil => exact Or.inl ⟨[], by simpa using hp.symm, by simpa using hq.symm⟩
+        | cons x xs => exact Or.inr ⟨x :: xs, by simp, hp⟩
+    rcases key with ⟨a', hp, hq⟩ | ⟨c', hc, hp⟩
+    · subst hp
+      obtain ⟨e, he, hE⟩ := decodeElems_trunc f 1 as hall a' s hq hs (off + 1 + ((natToDec as.length).length + 2))
+      refine ⟨e, ?_, hE⟩
+      rw [hty]
+      rw [decodeInt_dec _ hn]
+      have hn1 : ¬ ((as.length : Int) < -1) := by omega
+      have hn2 : ¬ ((as.length : Int) = -1) := by omega
+      simp only [hn1, hn2, if_false, Int.toNat_natCast, Nat.zero_add]
+      rw [he]
+    · refine ⟨.eof, ?_, Or.inl rfl⟩
+      rw [hty, decodeInt_trunc _ p' c' hp hc]
+
+theorem decodeCmd_trunc (f : Nat) (c : List Bytes) (hwf : WF c) (p s : Bytes)
+    (h : encodeCmd c = p ++ s) (hs : s ≠ []) (off : Nat) :
+    ∃ e, decodeCmd (f + 2) p off = .error e ∧ IsEof e := by
+  obtain ⟨_, hn, hall, _⟩ := hwf
+  obtain ⟨e, he, hE⟩ := decodeResp_cmd_trunc f c hn hall p s h hs off
+  exact ⟨e, by unfold decodeCmd; rw [he], hE⟩
+
+theorem take_split {α} (l : List α) (k : Nat) (hk : k < l.length) :
+    l = l.take k ++ l.drop k ∧ l.drop k ≠ [] := by
+  refine ⟨(List.take_append_drop k l).symm, ?_⟩
+  intro h
+  have := congrArg List.length h
+  simp at this; omega
+
+theorem decodeOne_trunc (c : List Bytes) (hwf : WF c) (k : Nat) (hk : k < (encodeCmd c).length) :
+    decodeOne ((encodeCmd c).take k) = .error .eof ∨ decodeOne ((encodeCmd c).take k) = .error .ueof := by
+  obtain ⟨h1, h2⟩ := take_split (encodeCmd c) k hk
+  unfold decodeOne
+  cases hp : (encodeCmd c).take k with
+  | nil => left; simp [decodeCmd, decodeResp, decodeType]
+  | cons x xs =>
+    rw [hp] at h1
+    obtain ⟨e, he, hE⟩ := decodeCmd_trunc xs.length c hwf (x :: xs) _ h1 h2 0
+    have : (x :: xs).length + 1 = xs.length + 2 := by simp
+    rw [this, he]
+    rcases hE with rfl | rfl
+    · left; rfl
+    · right; rfl
+
+theorem decodeAllFrom_trunc (start pre : Nat) (s : List (List Bytes)) (c : List Bytes) (k : Nat)
+    (hs : ∀ c ∈ s, WF c) (hc : WF c) (hk : k < (encodeCmd c).length) :
+    decodeAllFrom start pre (s.flatMap encodeCmd ++ (encodeCmd c).take k) = (expected (start + pre) s, .eof) ∨
+    decodeAllFrom start pre (s.flatMap encodeCmd ++ (encodeCmd c).take k) = (expected (start + pre) s, .ueof) := by
+  obtain ⟨h1, h2⟩ := take_split (encodeCmd c) k hk
+  generalize hp : (encodeCmd c).take k = p at h1
+  unfold decodeAllFrom
+  generalize hL : (s.flatMap encodeCmd ++ p).length = L
+  by_cases hz : L = 0
+  · -- empty input
+    subst hz
+    have hnil : s.flatMap encodeCmd ++ p = [] := List.eq_nil_of_length_eq_zero hL
+    have hs0 : s = [] := by
+      cases s with
+      | nil => rfl
+      | cons c0 cs =>
+        have := flatMap_encodeCmd_length_ge (c0 :: cs)
+        rw [List.length_append] at hL
+        simp only [List.length_cons] at this; omega
+    subst hs0
+    left
+    rw [hnil]
+    simp [decodeAllAux, decodeCmd, decodeResp, decodeType, expected, boundaries]
+  · have hlen := flatMap_encodeCmd_length_ge s
+    have hsl : s.length ≤ L := by rw [← hL, List.length_append]; omega
+    rw [decodeAllAux_stream (L + 1) start s p (L + 1) pre (by omega) (by omega) hs]
+    obtain ⟨f, hf⟩ : ∃ f, L + 1 = f + 2 := ⟨L - 1, by omega⟩
+    obtain ⟨e, he, hE⟩ := decodeCmd_trunc f c hc p _ h1 h2 (pre + (s.flatMap encodeCmd).length)
+    obtain ⟨m, hm⟩ : ∃ m, L + 1 - s.length = m + 1 := ⟨L - s.length, by omega⟩
+    rw [hm, hf]
+    simp only [decodeAllAux, he, List.append_nil]
+    rcases hE with rfl | rfl
+    · left; rfl
+    · right; rfl
+
+/-! ### offsets with a preset decoder counter; bounds -/
+
+theorem decodeAllFrom_stream (start pre : Nat) (s : List (List Bytes)) (hwf : ∀ c ∈ s, WF c) :
+    decodeAllFrom start pre (s.flatMap encodeCmd) = (expected (start + pre) s, .eof) := by
+  have hc : WF [[65]] := ⟨by decide, by decide, by intro a ha; simp at ha; subst ha; decide,
+    by intro b hb; simp at hb; subst hb; decide⟩
+  have h := decodeAllFrom_trunc start pre s [[65]] 0 hwf hc (by simp [encodeCmd])
+  simp only [List.take_zero, List.append_nil] at h
+  rcases h with h | h
+  · exact h
+  · -- the empty tail ends with eof, never ueof
+    exfalso
+    unfold decodeAllFrom at h
+    generalize hL : (s.flatMap encodeCmd).length = L at h
+    have hlen := flatMap_encodeCmd_length_ge s
+    by_cases hz : L = 0
+    · subst hz
+      have hnil : s.flatMap encodeCmd = [] := List.eq_nil_of_length_eq_zero hL
+      rw [hnil] at h
+      simp [decodeAllAux, decodeCmd, decodeResp, decodeType] at h
+    · have := decodeAllAux_stream (L + 1) start s [] (L + 1) pre (by omega) (by omega) hwf
+      rw [List.append_nil] at this
+      rw [this] at h
+      obtain ⟨m, hm⟩ : ∃ m, L + 1 - s.length = m + 1 := ⟨L - s.length, by omega⟩
+      obtain ⟨f, hf⟩ : ∃ f, L + 1 = f + 1 := ⟨L, rfl⟩
+      rw [hm] at h
+      simp [decodeAllAux, decodeCmd, decodeResp, decodeType] at h
+
+theorem boundaries_le (start : Nat) (s : List (List Bytes)) :
+    ∀ b ∈ boundaries start s, b ≤ start + (s.flatMap encodeCmd).length := by
+  induction s generalizing start with
+  | nil => simp [boundaries]
+  | cons c cs ih =>
+    intro b hb
+    simp only [boundaries, List.mem_cons] at hb
+    simp only [List.flatMap_cons, List.length_append]
+    rcases hb with rfl | hb
+    · omega
+    · have := ih _ b hb; omega
+
+theorem expected_snd_le (start : Nat) (s : List (List Bytes)) :
+    ∀ p ∈ expected start s, p.2 ≤ start + (s.flatMap encodeCmd).length := by
+  intro p hp
+  unfold expected at hp
+  exact boundaries_le start s p.2 (List.of_mem_zip hp).2
 
 end GunYu.Resp
